@@ -38,6 +38,15 @@ pub fn dyadic(x: f64) -> R<(i64, i64)> {
 }
 
 pub fn num_json(x: f64) -> R<Value> {
+    if x == f64::INFINITY {
+        return Ok(json!({"op":"num","n":1,"d":0}));
+    }
+    if x == f64::NEG_INFINITY {
+        return Ok(json!({"op":"num","n":-1,"d":0}));
+    }
+    if x.is_nan() {
+        return Ok(json!({"op":"num","n":0,"d":0}));
+    }
     let (n, d) = dyadic(x)?;
     Ok(json!({"op":"num","n":n,"d":d}))
 }
@@ -310,6 +319,59 @@ pub fn scale_row(vals: &[f64]) -> R<(Vec<i64>, i64)> {
         out.push(s as i64);
     }
     Ok((out, den))
+}
+
+/// Structure of a linear model that is always observable, even when its
+/// numbers cannot cross to TLC exactly: name ranks (byte order), lengths,
+/// non-finite numbers, row names split at a trailing `__<k>`.
+pub fn lm_shape(lm: &LinearModel) -> Value {
+    let mut sorted: Vec<&String> = lm.variables().iter().collect();
+    sorted.sort();
+    sorted.dedup();
+    let rank: Vec<usize> = lm
+        .variables()
+        .iter()
+        .map(|n| sorted.binary_search(&n).unwrap() + 1)
+        .collect();
+    let mut nonfinite = vec![];
+    for (i, c) in lm.constraints().iter().enumerate() {
+        if c.coefficients().iter().any(|x| !x.is_finite()) {
+            nonfinite.push(format!("row {} coefficient", i + 1));
+        }
+        if !c.rhs().is_finite() {
+            nonfinite.push(format!("row {} rhs", i + 1));
+        }
+    }
+    if lm.objective().iter().any(|x| !x.is_finite()) {
+        nonfinite.push("objective coefficient".to_string());
+    }
+    if !lm.objective_offset().is_finite() {
+        nonfinite.push("objective offset".to_string());
+    }
+    let rownames: Vec<Value> = lm
+        .constraints()
+        .iter()
+        .map(|c| {
+            let name = c.name();
+            let (base, k) = match name.rfind("__") {
+                Some(i) if i > 0 && name[i + 2..].parse::<u32>().is_ok() && !name[i + 2..].is_empty() => {
+                    (name[..i].to_string(), name[i + 2..].parse::<i64>().unwrap())
+                }
+                _ => (name.clone(), 0),
+            };
+            json!({"name":name,"base":base,"k":k})
+        })
+        .collect();
+    json!({
+        "names": lm.variables(),
+        "rank": rank,
+        "domkeys": lm.domain().keys().collect::<Vec<_>>(),
+        "rowlens": lm.constraints().iter().map(|c| c.coefficients().len()).collect::<Vec<_>>(),
+        "objlen": lm.objective().len(),
+        "nonfinite": nonfinite,
+        "rownames": rownames,
+        "sense": sense_name(lm.optimization_type()),
+    })
 }
 
 /// Linear-model JSON: vars (name, kind, lo, hi, aux), integer rows, objective.
